@@ -1,0 +1,12 @@
+//go:build !verif
+
+// Package verifhook provides observation/scheduling points for external
+// verification harnesses. Without the "verif" build tag Enabled is a false
+// constant and every guarded call is compiled out.
+package verifhook
+
+// Enabled reports whether the hooks are compiled in.
+const Enabled = false
+
+// Point is a no-op without the verif build tag.
+func Point(name string, args ...any) {}
